@@ -43,8 +43,8 @@ theorem addConn_server_ids : (a.addConn fd srvId tcp).servers.map (·.id) = a.se
   simp only [Sk.addConn, Sk.modS, List.map_map]
   apply List.map_congr_left; intro x _; simp only [Function.comp]; split <;> rfl
 
-theorem wf_addConn (h : WfS a none) (hlt : fd < a.nextFd) (hs : fd ∈ a.socks) (hfresh : ∀ c ∈ a.cFQ, c.1 ≠ fd) :
-    WfS (a.addConn fd srvId tcp) none := by
+theorem wf_addConn (h : WfS a none) (hlt : fd < a.nextFd) (hs : fd ∈ a.socks) (hfresh : ∀ c ∈ a.cFQ, c.1 ≠ fd)
+    (hsrv : ∃ v ∈ a.servers, v.id = srvId) : WfS (a.addConn fd srvId tcp) none := by
   have hc := h.c
   have hsv := h.s
   -- a descriptor listed by a server is not the fresh one
@@ -83,7 +83,32 @@ theorem wf_addConn (h : WfS a none) (hlt : fd < a.nextFd) (hs : fd ∈ a.socks) 
       obtain ⟨c, hcm, h1, h2⟩ := hc.qc p hp fd' hfd'
       exact ⟨c, List.mem_append.mpr (Or.inl hcm), h1, h2⟩
   · rw [addConn_cF4]
-    refine ⟨by rw [addConn_server_ids]; exact hsv.nodup, ?_, ?_, ?_⟩
+    refine ⟨by rw [addConn_server_ids]; exact hsv.nodup, ?_, ?_, ?_, ?_⟩
+    rotate_left 3
+    · intro fd' srv t hm
+      -- the image of a server lists at least what the server listed
+      have img : ∀ v1 ∈ a.servers, ∀ x ∈ v1.conns, ∃ v ∈ (a.addConn fd srvId tcp).servers, v.id = v1.id ∧ x ∈ v.conns := by
+        intro v1 hv1 x hx
+        refine ⟨_, mem_servers_addConn.mpr ⟨v1, hv1, rfl⟩, by split <;> rfl, ?_⟩
+        split
+        · show x ∈ (if tcp = true then v1.conns ++ [fd] else fd :: v1.conns)
+          split
+          · exact List.mem_append.mpr (Or.inl hx)
+          · exact List.mem_cons_of_mem _ hx
+        · exact hx
+      rcases List.mem_append.mp hm with hm | hm
+      · obtain ⟨v1, hv1, hid, hx⟩ := hsv.linked fd' srv t hm
+        obtain ⟨v, hv, hvid, hvx⟩ := img v1 hv1 fd' hx
+        exact ⟨v, hv, hvid.trans hid, hvx⟩
+      · simp only [List.mem_singleton, Prod.mk.injEq] at hm
+        obtain ⟨v1, hv1, hid⟩ := hsrv
+        refine ⟨_, mem_servers_addConn.mpr ⟨v1, hv1, rfl⟩, ?_, ?_⟩
+        · rw [hm.2.2.1, ← hid]; split <;> rfl
+        · rw [hm.1, if_pos hid]
+          show fd ∈ (if tcp = true then v1.conns ++ [fd] else fd :: v1.conns)
+          split
+          · exact List.mem_append.mpr (Or.inr (List.mem_singleton.mpr rfl))
+          · exact List.mem_cons_self
     · intro v hv
       obtain ⟨v1, hv1, rfl⟩ := mem_servers_addConn.mp hv
       have hnot : fd ∉ v1.conns := fun hm => by
